@@ -425,7 +425,9 @@ func unescape(lit []byte) string {
 	var str strings.Builder
 
 	for i := 0; i < len(lit); i++ {
-		if lit[i] == '\\' {
+		// A lone backslash (possible in a character class, e.g. [\]) stands
+		// for itself.
+		if lit[i] == '\\' && i+1 < len(lit) {
 			switch lit[i+1] {
 			case 'n':
 				str.WriteRune('\n')
